@@ -132,8 +132,8 @@ Section Run.
   Definition iter_front (i : nat) : M (option elem) :=
     it <- iter_get i ;;
     match it with
-    | IDrain d => r <- drain_next cfg d ;; iter_set i (Some (IDrain (snd r))) ;;; ret (fst r)
-    | IInto t => r <- into_next cfg t ;; iter_set i (Some (IInto (snd r))) ;;; ret (fst r)
+    | IDrain d => drain_next_at cfg i
+    | IInto t => into_next_at cfg i
     | IFilter f =>
         r <- filter_next cfg (filter_fuel f) f ;;
         iter_set i (Some (IFilter (snd r))) ;;;
@@ -160,8 +160,8 @@ Section Run.
   Definition iter_back (i : nat) : M (option elem) :=
     it <- iter_get i ;;
     match it with
-    | IDrain d => r <- drain_next_back cfg d ;; iter_set i (Some (IDrain (snd r))) ;;; ret (fst r)
-    | IInto t => r <- into_next_back cfg t ;; iter_set i (Some (IInto (snd r))) ;;; ret (fst r)
+    | IDrain d => drain_next_back_at cfg i
+    | IInto t => into_next_back_at cfg i
     | IFilter f => ub WildCursor         (* not double-ended: guarded by the step rule *)
     end.
   Fixpoint iter_nth_back (k : nat) (i : nat) : M (option elem) :=
@@ -315,10 +315,8 @@ Section Run.
         if iter_exists s i then
           it <- iter_get i ;;
           match it with
-          | IDrain d => r <- drain_next cfg d ;; iter_set i (Some (IDrain (snd r))) ;;;
-                        with_ret (yield (fst r))
-          | IInto t => r <- into_next cfg t ;; iter_set i (Some (IInto (snd r))) ;;;
-                       with_ret (yield (fst r))
+          | IDrain d => r <- drain_next_at cfg i ;; with_ret (yield r)
+          | IInto t => r <- into_next_at cfg i ;; with_ret (yield r)
           | IFilter f =>
               r <- filter_next cfg (filter_fuel f) f ;;
               iter_set i (Some (IFilter (snd r))) ;;;
@@ -349,10 +347,8 @@ Section Run.
         if iter_exists s i then
           it <- iter_get i ;;
           match it with
-          | IDrain d => r <- drain_next_back cfg d ;; iter_set i (Some (IDrain (snd r))) ;;;
-                        with_ret (yield (fst r))
-          | IInto t => r <- into_next_back cfg t ;; iter_set i (Some (IInto (snd r))) ;;;
-                       with_ret (yield (fst r))
+          | IDrain d => r <- drain_next_back_at cfg i ;; with_ret (yield r)
+          | IInto t => r <- into_next_back_at cfg i ;; with_ret (yield r)
           | IFilter _ => SKIP
           end
         else SKIP
@@ -361,7 +357,7 @@ Section Run.
           it <- iter_get i ;;
           match it with
           | IDrain d => n <- drain_hint d ;; ret (TOk, RHint n (Some n))
-          | IInto t => n <- len (i_vec t) ;; ret (TOk, RHint n (Some n))
+          | IInto t => n <- into_len_at i ;; ret (TOk, RHint n (Some n))
           | IFilter f => ret (TOk, RHint 0 (Some (f_old f - f_pos f)))
           end
         else SKIP
